@@ -90,15 +90,21 @@ cocls::with_allocator<St, cocls::async<int>> st_body(St &, c19_ctx &C, int id, c
     co_return id;
 }
 template <typename St> cocls::future<int> st_start(St &st, c19_ctx &C, int id, cocls::future<void> *gate, int size_class) {
-    switch (size_class) { // five frame sizes, two pairs only a few words apart (a policy that fails to grow for a slightly larger frame)
+    switch (size_class) { // nine frame sizes: far apart, a few words apart, and runs that grow by ONE word (8 bytes) per step, so that both
+                          // 8 mod 16 -> 0 mod 16 and 0 mod 16 -> 8 mod 16 growth happens (capacity bookkeeping in allocator granules)
     case 0: return st_body<St, 2>(st, C, id, gate).start();
     case 1: return st_body<St, 24>(st, C, id, gate).start();
     case 2: return st_body<St, 90>(st, C, id, gate).start();
     case 3: return st_body<St, 6>(st, C, id, gate).start();
-    default: return st_body<St, 29>(st, C, id, gate).start();
+    case 4: return st_body<St, 29>(st, C, id, gate).start();
+    case 5: return st_body<St, 3>(st, C, id, gate).start();
+    case 6: return st_body<St, 4>(st, C, id, gate).start();
+    case 7: return st_body<St, 5>(st, C, id, gate).start();
+    default: return st_body<St, 25>(st, C, id, gate).start();
     }
 }
 
+constexpr int ST_NSIZES = 9;
 struct st_result { std::string err; long heap_allocs_after_warmup = 0; std::string desc; };
 
 // sequences: up to 'maxlive' coroutines alive at once on ONE storage (1 for the single-block policies)
@@ -115,12 +121,12 @@ void st_sequence(vf::rng &r, Make &&make, int maxlive, bool expect_no_heap_after
         int nextid = 1;
         res.desc = std::string(name) + ": ";
         // first frame of a random size: later, larger frames force the policy to grow its block
-        { cocls::future<int> f = st_start(*st, C, 0, nullptr, (int)r.below(5)); if (f.wait() != 0) res.err = "first coroutine returned a wrong value"; }
+        { cocls::future<int> f = st_start(*st, C, 0, nullptr, (int)r.below(ST_NSIZES)); if (f.wait() != 0) res.err = "first coroutine returned a wrong value"; }
         long heap0 = g_heap_news.load();
         for (int step = 0; step < len && res.err.empty(); step++) {
             bool create = live.empty() || ((int)live.size() < maxlive && r.chance(1, 2));
             if (create) {
-                int sc = (int)r.below(5);
+                int sc = (int)r.below(ST_NSIZES);
                 bool suspend = maxlive > 1 ? r.chance(3, 4) : r.chance(1, 2);
                 live_t L; L.id = nextid++;
                 res.desc += "create(size" + std::to_string(sc) + (suspend ? ",suspends) " : ") ");
@@ -147,6 +153,30 @@ void st_sequence(vf::rng &r, Make &&make, int maxlive, bool expect_no_heap_after
     if (res.err.empty() && C.started.load() != C.finished.load()) res.err = "not every coroutine finished";
     if (res.err.empty() && g_frame_allocs.load() - fa0 != g_frame_deallocs.load() - fd0) res.err = "frames allocated " + std::to_string(g_frame_allocs.load() - fa0) + " != frames released " + std::to_string(g_frame_deallocs.load() - fd0);
     if (res.err.empty() && g_frames.errors.load() != e0) res.err = "frame monitor: " + vf::ms_errors_str(g_frames.errors.load());
+}
+
+// raw size walk on ONE storage object: blocks of 8..~400 bytes (multiples of a word, as coroutine frames are), each next request a few
+// words larger or smaller than the previous one; every byte of the requested size is written and read back (ASan: a block smaller
+// than requested is a heap-buffer-overflow), then the block is released through the policy.
+template <typename St, typename Make> std::string st_raw_walk(vf::rng &r, Make &&make, const char *name, std::string &desc) {
+    auto st = make();
+    size_t sz = 8 * (1 + r.below(24));
+    int steps = 6 + (int)r.below(24);
+    desc = std::string(name) + " raw sizes:";
+    for (int i = 0; i < steps; i++) {
+        desc += " " + std::to_string(sz);
+        unsigned char *p = (unsigned char *)st->alloc(sz);
+        if (!p) return "alloc returned null";
+        unsigned char pat = (unsigned char)(0x40 + i);
+        memset(p, pat, sz);
+        for (size_t k = 0; k < sz; k++) if (p[k] != pat) return "block content does not read back";
+        St::dealloc(p, sz);
+        long d = (long)r.below(7) - 3; // -3..+3 words
+        if (r.chance(1, 6)) d = (long)r.below(40) - 10;
+        long nsz = (long)sz + 8 * d;
+        sz = (size_t)std::min<long>(std::max<long>(nsz, 8), 600);
+    }
+    return "";
 }
 
 // equal sized frames after warm-up must not touch the heap (reusing policies): measured with nothing else allocating
@@ -205,10 +235,12 @@ inline void storage_sequences(const vf::opts &o, vf::report &R, uint64_t seqs) {
         switch (policy) {
         case 0: pname = "default_storage"; st_sequence<monitored<cocls::default_storage>>(r, [] { return std::make_unique<monitored<cocls::default_storage>>(); }, 3, false, res, pname); break;
         case 1: pname = "reusable_storage"; st_sequence<monitored<cocls::reusable_storage>>(r, [] { return std::make_unique<monitored<cocls::reusable_storage>>(); }, 1, true, res, pname);
-            if (res.err.empty()) res.err = st_no_heap_after_warmup<monitored<cocls::reusable_storage>>([] { return std::make_unique<monitored<cocls::reusable_storage>>(); }, (int)r.below(3), pname);
+            if (res.err.empty()) res.err = st_no_heap_after_warmup<monitored<cocls::reusable_storage>>([] { return std::make_unique<monitored<cocls::reusable_storage>>(); }, (int)r.below(ST_NSIZES), pname);
+            if (res.err.empty() && r.chance(1, 2)) res.err = st_raw_walk<monitored<cocls::reusable_storage>>(r, [] { return std::make_unique<monitored<cocls::reusable_storage>>(); }, pname, res.desc);
             break;
         case 2: pname = "reusable_storage_mtsafe"; st_sequence<monitored<cocls::reusable_storage_mtsafe>>(r, [] { return std::make_unique<monitored<cocls::reusable_storage_mtsafe>>(); }, 3, true, res, pname);
-            if (res.err.empty()) res.err = st_no_heap_after_warmup<monitored<cocls::reusable_storage_mtsafe>>([] { return std::make_unique<monitored<cocls::reusable_storage_mtsafe>>(); }, (int)r.below(3), pname);
+            if (res.err.empty()) res.err = st_no_heap_after_warmup<monitored<cocls::reusable_storage_mtsafe>>([] { return std::make_unique<monitored<cocls::reusable_storage_mtsafe>>(); }, (int)r.below(ST_NSIZES), pname);
+            if (res.err.empty() && r.chance(1, 2)) res.err = st_raw_walk<monitored<cocls::reusable_storage_mtsafe>>(r, [] { return std::make_unique<monitored<cocls::reusable_storage_mtsafe>>(); }, pname, res.desc);
             break;
         case 3: { // stack storage with heap fallback
             pname = "stack_storage";
@@ -257,7 +289,8 @@ inline void storage_sequences(const vf::opts &o, vf::report &R, uint64_t seqs) {
             auto *vp = vec.get();
             using RB = cocls::reusable_buffer_storage<std::vector<uint64_t>>;
             st_sequence<monitored<RB>>(r, [vp] { return std::make_unique<monitored<RB>>(*vp); }, 1, true, res, pname);
-            if (res.err.empty()) res.err = st_no_heap_after_warmup<monitored<RB>>([vp] { return std::make_unique<monitored<RB>>(*vp); }, (int)r.below(3), pname);
+            if (res.err.empty()) res.err = st_no_heap_after_warmup<monitored<RB>>([vp] { return std::make_unique<monitored<RB>>(*vp); }, (int)r.below(ST_NSIZES), pname);
+            if (res.err.empty() && r.chance(1, 2)) res.err = st_raw_walk<monitored<RB>>(r, [vp] { return std::make_unique<monitored<RB>>(*vp); }, pname, res.desc);
             break;
         }
         default: { // storage with an attached extra object (ordinary and over-aligned type, frames of 8 mod 16 and 0 mod 16 bytes)
